@@ -170,6 +170,9 @@ def lark_text(g):
     for r in g["rules"]:
         alts = [" ".join(lark_item(x) for x in alt) for alt in r["alts"]]
         lines.append(r["lhs"] + ": " + " | ".join(alts))
+    if g.get("ign"):
+        cls = "".join({32: " ", 10: "\\n", 9: "\\t"}.get(b, chr(b)) for b in g["ign"])
+        lines.append("%ignore /[" + cls + "]+/")
     return "\n".join(lines) + "\n"
 
 
@@ -188,6 +191,7 @@ def alphabet(g):
             for alt in it["alts"]:
                 for x in alt:
                     walk(x)
+    acc.update(g.get("ign", []))
     for r in g["rules"]:
         for alt in r["alts"]:
             for it in alt:
@@ -245,6 +249,11 @@ def derive(g, rng, max_depth=7):
     class Fail(Exception):
         pass
 
+    def ign():
+        if not g.get("ign") or rng.random() < 0.6:
+            return b""
+        return bytes(rng.choice(g["ign"]) for _ in range(rng.choice([1, 1, 2])))
+
     def item(it, d):
         if d > max_depth:
             raise Fail()
@@ -252,9 +261,9 @@ def derive(g, rng, max_depth=7):
         if k == "ref":
             return alts(rules[it["n"]], d + 1)
         if k == "lit":
-            return bytes(it["b"])
+            return bytes(it["b"]) + ign()
         if k == "cls":
-            return bytes([rng.choice(it["s"])])
+            return bytes([rng.choice(it["s"])]) + ign()
         if k == "opt":
             return item(it["a"], d + 1) if rng.random() < 0.5 else b""
         if k == "star":
@@ -281,7 +290,7 @@ def derive(g, rng, max_depth=7):
         raise Fail()
 
     try:
-        return alts(rules[g["start"]], 0)
+        return ign() + alts(rules[g["start"]], 0)
     except Fail:
         return None
 
